@@ -193,9 +193,11 @@ fn render_variable_field_type(
     options: &GraphQLClientCodegenOptions,
     query: &BoundQuery<'_>,
 ) -> TokenStream {
+    // `field_type` rather than `input_name`: a variable can also be of a scalar type, and `ID` must
+    // keep its spelling under Rust normalization (the module only defines `type ID = String`).
     let normalized_name = options
         .normalization()
-        .input_name(variable.type_name(query.schema));
+        .field_type(variable.type_name(query.schema));
     let safe_name = shared::keyword_replace(normalized_name.clone());
     let full_name = Ident::new(safe_name.as_ref(), Span::call_site());
 
